@@ -55,9 +55,9 @@ impl<D: DiffHook> Replace<D> {
     /*@*/ /// I_R: forwarded script ++ pending calls == received script; the forwarded script is exact and in normal form
     /*@*/ pub open spec fn core(&self) -> bool {
     /*@*/     let rst = self.rst(); let xs = self.xs(); let r0 = self.rst0_();
-    /*@*/     &&& wf(r0) && r0.ro == r0.oc && r0.rn == r0.nc && r0.oe <= usize::MAX && r0.ne <= usize::MAX
+    /*@*/     &&& start_ok0(r0)
     /*@*/     &&& rst.ok
-    /*@*/     &&& self.inner().trace() == self.it0_() + sent::<D>(self.em_()) + (if rst.fin { fin::<D>() } else { Seq::<Ev>::empty() })
+    /*@*/     &&& self.inner().trace() == sent::<D>(self.em_()) + (if rst.fin { fin::<D>() } else { Seq::<Ev>::empty() })   // the inner hook was fresh
     /*@*/     &&& !self.inner().failed() && self.inner().accepts_replace()
     /*@*/     &&& xs.ok && xs.oc == rst.oc - self.el() - self.dl() && xs.nc == rst.nc - self.el() - self.il()
     /*@*/     &&& xs.dels == (rst.dels - r0.dels) - self.dl() && xs.inss == (rst.inss - r0.inss) - self.il() && xs.eqs == (rst.eqs - r0.eqs) - self.el()
@@ -77,7 +77,7 @@ impl<D: DiffHook> Replace<D> {
     /*@*/ }
     /*@*/ /// after creation (the creator then assigns rst0 by a ghost assignment)
     /*@*/ pub open spec fn fresh(&self) -> bool {
-    /*@*/     self.hist_() == Seq::<Ev>::empty() && self.em_() == Seq::<Ev>::empty() && self.it0_() == self.inner().trace() && self.idle()
+    /*@*/     self.hist_() == Seq::<Ev>::empty() && self.em_() == Seq::<Ev>::empty() && self.idle()
     /*@*/ }
     /// Creates a new replace hook wrapping another hook.
     pub fn new(d: D) -> (res: Self)
@@ -102,7 +102,7 @@ impl<D: DiffHook> Replace<D> {
     fn flush_eq(&mut self) -> (res: Result<(), D::Error>)
     /*@*/     requires old(self).core(), !old(self).rst().fin,
     /*@*/     ensures
-    /*@*/         final(self).hist_() == old(self).hist_(), final(self).rst0_() == old(self).rst0_(), final(self).it0_() == old(self).it0_(), final(self).rel0_() == old(self).rel0_(),
+    /*@*/         final(self).hist_() == old(self).hist_(), final(self).rst0_() == old(self).rst0_(), final(self).rel0_() == old(self).rel0_(),
     /*@*/         hook_frame(old(self).inner(), final(self).inner(), res),
     /*@*/         res.is_ok() ==> final(self).core() && final(self).p_eq() is None
     /*@*/             && final(self).p_del() == old(self).p_del() && final(self).p_ins() == old(self).p_ins()
@@ -126,8 +126,8 @@ impl<D: DiffHook> Replace<D> {
         /*@*/         self.em@ = self.em@.push(e);
         /*@*/         lemma_xrun_push(pre.rr(), pre.x0(), pre.em_(), e);
         /*@*/         lemma_sent_push::<D>(pre.em_(), e);
-        /*@*/         assert(pre.it0_() + sent::<D>(pre.em_()) + Seq::<Ev>::empty() =~= pre.it0_() + sent::<D>(pre.em_()));
-        /*@*/         assert((pre.it0_() + sent::<D>(pre.em_())).push(e) =~= pre.it0_() + (sent::<D>(pre.em_()) + seq![e]) + Seq::<Ev>::empty());
+        /*@*/         assert(sent::<D>(pre.em_()) + Seq::<Ev>::empty() =~= sent::<D>(pre.em_()));
+        /*@*/         assert(sent::<D>(pre.em_()).push(e) =~= (sent::<D>(pre.em_()) + seq![e]) + Seq::<Ev>::empty());
         /*@*/     }
         /*@*/ }
         Ok(())
@@ -138,7 +138,7 @@ impl<D: DiffHook> Replace<D> {
     /*@*/         // the run of changes is over: carried indices are resolved
     /*@*/         old(self).rst().lvl >= 1 ==> old(self).rst().po <= old(self).rst().oc && old(self).rst().pn <= old(self).rst().nc,
     /*@*/     ensures
-    /*@*/         final(self).hist_() == old(self).hist_(), final(self).rst0_() == old(self).rst0_(), final(self).it0_() == old(self).it0_(), final(self).rel0_() == old(self).rel0_(),
+    /*@*/         final(self).hist_() == old(self).hist_(), final(self).rst0_() == old(self).rst0_(), final(self).rel0_() == old(self).rel0_(),
     /*@*/         hook_frame(old(self).inner(), final(self).inner(), res),
     /*@*/         res.is_ok() ==> final(self).core() && final(self).p_del() is None && final(self).p_ins() is None && final(self).p_eq() == old(self).p_eq()
     /*@*/             && ((old(self).p_del() is Some || old(self).p_ins() is Some) ==> final(self).xs().last == 2)
@@ -159,8 +159,8 @@ impl<D: DiffHook> Replace<D> {
                 /*@*/     self.em@ = self.em@.push(e);
                 /*@*/     lemma_xrun_push(pre.rr(), pre.x0(), pre.em_(), e);
                 /*@*/     lemma_sent_push::<D>(pre.em_(), e);
-                /*@*/     assert(pre.it0_() + sent::<D>(pre.em_()) + Seq::<Ev>::empty() =~= pre.it0_() + sent::<D>(pre.em_()));
-                /*@*/     assert(pre.it0_() + sent::<D>(pre.em_()) + sent_ev::<D>(e) =~= pre.it0_() + (sent::<D>(pre.em_()) + sent_ev::<D>(e)) + Seq::<Ev>::empty());
+                /*@*/     assert(sent::<D>(pre.em_()) + Seq::<Ev>::empty() =~= sent::<D>(pre.em_()));
+                /*@*/     assert(sent::<D>(pre.em_()) + sent_ev::<D>(e) =~= (sent::<D>(pre.em_()) + sent_ev::<D>(e)) + Seq::<Ev>::empty());
                 /*@*/     assert(seq![e] =~= Seq::<Ev>::empty().push(e));
                 /*@*/ }
             } else {
@@ -171,8 +171,8 @@ impl<D: DiffHook> Replace<D> {
                 /*@*/     self.em@ = self.em@.push(e);
                 /*@*/     lemma_xrun_push(pre.rr(), pre.x0(), pre.em_(), e);
                 /*@*/     lemma_sent_push::<D>(pre.em_(), e);
-                /*@*/     assert(pre.it0_() + sent::<D>(pre.em_()) + Seq::<Ev>::empty() =~= pre.it0_() + sent::<D>(pre.em_()));
-                /*@*/     assert(pre.it0_() + sent::<D>(pre.em_()) + sent_ev::<D>(e) =~= pre.it0_() + (sent::<D>(pre.em_()) + sent_ev::<D>(e)) + Seq::<Ev>::empty());
+                /*@*/     assert(sent::<D>(pre.em_()) + Seq::<Ev>::empty() =~= sent::<D>(pre.em_()));
+                /*@*/     assert(sent::<D>(pre.em_()) + sent_ev::<D>(e) =~= (sent::<D>(pre.em_()) + sent_ev::<D>(e)) + Seq::<Ev>::empty());
                 /*@*/     assert(seq![e] =~= Seq::<Ev>::empty().push(e));
                 /*@*/ }
             }
@@ -184,15 +184,15 @@ impl<D: DiffHook> Replace<D> {
             /*@*/     self.em@ = self.em@.push(e);
             /*@*/     lemma_xrun_push(pre.rr(), pre.x0(), pre.em_(), e);
             /*@*/     lemma_sent_push::<D>(pre.em_(), e);
-            /*@*/     assert(pre.it0_() + sent::<D>(pre.em_()) + Seq::<Ev>::empty() =~= pre.it0_() + sent::<D>(pre.em_()));
-            /*@*/     assert(pre.it0_() + sent::<D>(pre.em_()) + sent_ev::<D>(e) =~= pre.it0_() + (sent::<D>(pre.em_()) + sent_ev::<D>(e)) + Seq::<Ev>::empty());
+            /*@*/     assert(sent::<D>(pre.em_()) + Seq::<Ev>::empty() =~= sent::<D>(pre.em_()));
+            /*@*/     assert(sent::<D>(pre.em_()) + sent_ev::<D>(e) =~= (sent::<D>(pre.em_()) + sent_ev::<D>(e)) + Seq::<Ev>::empty());
             /*@*/     assert(seq![e] =~= Seq::<Ev>::empty().push(e));
             /*@*/ }
         }
         /*@*/ proof {
         /*@*/     let rst = self.rst(); let xs = self.xs(); let r0 = self.rst0_();
         /*@*/     assert(rst.ok);
-        /*@*/     assert(self.inner().trace() == self.it0_() + sent::<D>(self.em_()) + (if rst.fin { fin::<D>() } else { Seq::<Ev>::empty() }));
+        /*@*/     assert(self.inner().trace() == sent::<D>(self.em_()) + (if rst.fin { fin::<D>() } else { Seq::<Ev>::empty() }));
         /*@*/     assert(!self.inner().failed() && self.inner().accepts_replace());
         /*@*/     assert(xs.ok);
         /*@*/     assert(xs.oc == rst.oc - self.el() - self.dl() && xs.nc == rst.nc - self.el() - self.il());
@@ -263,7 +263,7 @@ impl<D: DiffHook> DiffHook for Replace<D> {
         /*@*/ proof {
         /*@*/     let rst = self.rst(); let xs = self.xs(); let r0 = self.rst0_();
         /*@*/     assert(rst.ok);
-        /*@*/     assert(self.inner().trace() == self.it0_() + sent::<D>(self.em_()) + (if rst.fin { fin::<D>() } else { Seq::<Ev>::empty() }));
+        /*@*/     assert(self.inner().trace() == sent::<D>(self.em_()) + (if rst.fin { fin::<D>() } else { Seq::<Ev>::empty() }));
         /*@*/     assert(!self.inner().failed() && self.inner().accepts_replace());
         /*@*/     assert(xs.ok);
         /*@*/     assert(xs.oc == rst.oc - self.el() - self.dl() && xs.nc == rst.nc - self.el() - self.il());
